@@ -45,7 +45,7 @@ func execC05(ci any) (r hx.Result) {
 
 func init() {
 	hx.Register(&hx.Spec{ID: "C04", Gen: genC04, Exec: execC04, New: func() any { return new(e4Case) },
-		Rule: "case = ext4 configuration (1 KiB / 4 KiB blocks, journal and metadata_csum on/off, start offset) + history (mkdir, create, write-at-offset, append, interleaved appends forcing many extents, symlink short/long, remove, chmod, chown, chtimes, populate a directory, fill to refusal, reopen); after every step listings, contents, link targets and set attributes are compared with the reference model; non-trivial = some file reached >= 2 extents (interleaved/appended growth), or a directory grew past one block, or a create after a remove; distinct by hash of the case JSON"})
+		Rule: "case = ext4 configuration (1 KiB / 4 KiB blocks, journal and metadata_csum on/off, start offset) + history (mkdir, create, write-at-offset, append, interleaved appends forcing many extents, symlink short/long, remove, chmod, chown, chtimes, populate a directory (also with long names and a block of content per file), remove most of a directory, fill to the last byte, fill-remove-grow, data in one or two Write calls per handle, reopen); after every step listings, contents, link targets and set attributes are compared with the reference model; non-trivial = some file reached >= 2 extents (interleaved/appended growth), or a directory grew past one block, or a create after a remove; distinct by hash of the case JSON"})
 	hx.Register(&hx.Spec{ID: "C05", Gen: genC05, Exec: execC05, New: func() any { return new(e4Case) },
 		Rule: "case = ext4 Create parameter set (block size, blocks per group, inode ratio/count, 64bit, flex_bg + log groups, huge_file, dir_index, resize_inode, gdt_csum/metadata_csum, journal, sparse_super2, label; sets Create refuses are discarded) x volume size x history; after Create and after every step the volume is written to scratch and e2fsck -f -n must exit 0; at the end debugfs rdump must extract exactly the model tree; non-trivial = non-default parameter set or a history with a remove or a refused operation; distinct by hash of the case JSON"})
 }
